@@ -214,16 +214,14 @@ func vhC06Check(p *Path, x, y float64) {
 	switch {
 	case r.rEnd:
 		region = vhC06REnd
+	case r.rClose:
+		region = vhC06RClose
 	case r.rTouch:
 		region = vhC06RTouch
 	case r.rHoriz:
 		region = vhC06RHoriz
-	case r.rClose:
-		region = vhC06RClose
 	}
 	vKnown("D6", region == vhC06REnd)
-	vKnown("D27", region == vhC06RTouch)
-	vKnown("D26", region == vhC06RHoriz)
 	vKnown("D28", region == vhC06RClose)
 
 	before := vhCopyData(p.d)
